@@ -239,7 +239,6 @@ impl Compactor {
                 };
                 #[cfg(feature = "verif")]
                 crate::verif::gate("compactor.pass.start").await;
-                let pin_version = self.storage.version.pin();
                 #[cfg(feature = "verif")]
                 crate::verif::gate("compactor.after_pin").await;
                 for (_, table) in tables {
@@ -254,6 +253,8 @@ impl Compactor {
                         .try_lock_for_compaction(table.table_id())
                         // the table may have been dropped since the pass listed it
                         && self.storage.tables.read().contains_key(&table.table_ref_id)
+                        // compact from the version that is current now that the lock is held
+                        && let pin_version = self.storage.version.pin()
                         && let Err(err) = self.compact_table(&pin_version.snapshot, table).await
                     {
                         warn!("failed to compact: {:?}", err);
